@@ -607,6 +607,9 @@ Definition handle_start_stage (s : state) (id i : nat) (retry : Z) : hres :=
   end.
 
 (* ---- StartTask ---- *)
+Definition before_incomplete (s : state) (i : nat) : bool :=
+  existsb (fun j => negb (is_complete (status_at s j))) (kids s i OwnBefore).
+
 Definition handle_start_task (s : state) (id i t : nat) : hres :=
   match get_stage s i with
   | None => ok []
@@ -616,6 +619,8 @@ Definition handle_start_task (s : state) (id i t : nat) : hres :=
       | Some tk =>
           (* a StartTask left over from before a jump re-armed the stage: the stage is NOT_STARTED again *)
           if status_eqb (s_status st) NOT_STARTED then ok [c_mark id]
+          (* a duplicate StartTask of the previous iteration: a before stage (re-armed) is not finished yet *)
+          else if before_incomplete s i then ok [c_mark id]
           else if negb (start_task_guard (t_status tk)) then ok [c_mark id]
           else if t_disabled tk then
             ok [txn [c_put i (st_tasks st (task_set (s_tasks st) t SKIPPED (t_started tk))); c_mark id; c_push (MCompleteTask i t SKIPPED)]]
